@@ -136,6 +136,36 @@ fn alt_codes_in_sequences<C: CI>(ctx: &mut Ctx) {
     });
 }
 
+/// The same decoders called through the CONCRETE type (`Dna::try_from_ascii(b)`, not `<C as Codec>::…`):
+/// an inherent method of the same name would shadow the trait method for such callers.
+macro_rules! concrete_calls {
+    ($ctx:expr, $t:ty) => {{
+        let name = <$t as CI>::NAME;
+        $ctx.group(&format!("{name}/concrete-type-calls"), |ctx| {
+            for b in 0..=255u8 {
+                ctx.eval();
+                let via_trait = (<$t as Codec>::try_from_ascii(b).map(|x| x.to_bits()), <$t as Codec>::try_from_bits(b).map(|x| x.to_bits()));
+                #[allow(clippy::redundant_closure_call)]
+                let via_type = observe(|| (<$t>::try_from_ascii(b).map(|x| <$t>::to_bits(x)), <$t>::try_from_bits(b).map(|x| <$t>::to_bits(x))));
+                check!(ctx, via_type == Ok(via_trait), format!("concrete-call|{name}|differs-from-trait-method"), "{}::try_from_ascii / try_from_bits({b:#04x}) called on the concrete type gives {:?}, through the trait {:?}", stringify!($t), via_type, via_trait);
+                if via_trait.0.is_some() {
+                    let u = observe(|| <$t>::to_bits(<$t>::unsafe_from_ascii(b)));
+                    check!(ctx, u == Ok(via_trait.0.unwrap()), format!("concrete-call|{name}|unsafe_from_ascii"), "{}::unsafe_from_ascii({:?}) on the concrete type: {:?}", stringify!($t), b as char, u);
+                    let c = observe(|| <$t>::to_char(<$t>::unsafe_from_ascii(b)));
+                    check!(ctx, c.is_ok(), format!("concrete-call|{name}|to_char"), "{}::to_char panicked", stringify!($t));
+                }
+                if via_trait.1.is_some() {
+                    let u = observe(|| <$t>::to_bits(<$t>::unsafe_from_bits(b)));
+                    check!(ctx, u == Ok(via_trait.1.unwrap()), format!("concrete-call|{name}|unsafe_from_bits"), "{}::unsafe_from_bits({b:#b}) on the concrete type: {:?}", stringify!($t), u);
+                }
+            }
+            let n = <$t>::items().count();
+            check!(ctx, n == <$t as Codec>::items().count() && <$t>::BITS == <$t as Codec>::BITS, format!("concrete-call|{name}|items-or-BITS"), "items()/BITS differ between the concrete type and the trait");
+            cell!(ctx, "{name}/concrete-type-calls");
+        });
+    }};
+}
+
 fn complements<C: CI + ComplementMut>(ctx: &mut Ctx) {
     let a = C::alpha();
     let name = C::NAME;
@@ -219,6 +249,13 @@ fn main() {
         });
         for_each_codec!(tables, ctx);
         for_each_codec!(alt_codes_in_sequences, ctx);
+        concrete_calls!(ctx, Dna);
+        concrete_calls!(ctx, Iupac);
+        concrete_calls!(ctx, Amino);
+        concrete_calls!(ctx, Text);
+        concrete_calls!(ctx, MDna);
+        concrete_calls!(ctx, MIupac);
+        concrete_calls!(ctx, Degen);
         for_each_comp_codec!(complements, ctx);
         // copying form on single symbols where implemented
         ctx.group("dna/to_comp", |ctx| {
